@@ -18,11 +18,13 @@ vars == <<u, ix, call>>
 
 KK == <<107>>        \* "k"
 JJ == <<106>>        \* "j"
+SZ == <<115, 105, 122, 101>>   \* "size": as a property of a map it is the entry under that key if there is one, the number of entries if not
 M1(k, v) == MapV(<< <<k, v>> >>)
 Elems(un) ==
   CASE un = "num" -> <<IntV(1), IntV(2), Flt(5, 2), Nil>>
     [] un = "str" -> <<Str(<<97>>), Str(<<66>>), Str(<<98>>)>>
     [] un = "map" -> <<M1(KK, IntV(1)), M1(KK, IntV(2)), M1(JJ, IntV(1)), M1(KK, Nil), M1(KK, Str(<<49>>))>>
+    [] un = "mapsz" -> <<M1(KK, IntV(1)), MapV(<< <<JJ, IntV(2)>>, <<KK, IntV(1)>> >>), M1(SZ, IntV(7)), M1(SZ, Nil), MapV(<<>>)>>
     [] un = "int" -> <<IntV(3), IntV(1), IntV(2)>>
     [] un = "mix" -> <<Nil, Str(<<97>>), IntV(1), Arr(<<IntV(1)>>), Arr(<<Str(<<49>>)>>)>>
 
@@ -31,6 +33,7 @@ SeqsOfLen(n, m) == IF n = 0 THEN {<<>>} ELSE {<<i>> \o t : i \in 1..m, t \in Seq
 
 Single == {"compact", "reverse", "first", "last", "size", "uniq", "sort", "join", "sort_natural"}
 CallsOf(un) ==
+  IF un = "mapsz" THEN [name : {"map"}, arg : {"k", "ksz"}, then : {"none", "compact", "join"}] ELSE
   [name : Single, arg : {"none"}, then : {"none"}]
   \cup [name : {"join"}, arg : {"comma"}, then : {"none"}]
   \cup [name : {"concat"}, arg : {"other", "empty"}, then : {"none"}]
@@ -39,7 +42,7 @@ CallsOf(un) ==
   \cup [name : {"sort", "map"}, arg : {"k"}, then : {"none"}]
   \cup [name : {"reverse", "sort", "compact", "uniq"}, arg : {"none"}, then : {"reverse", "compact", "sort", "size", "first", "join"}]
 
-Init == /\ u \in {"num", "str", "map", "int", "mix"}
+Init == /\ u \in {"num", "str", "map", "int", "mix", "mapsz"}
         /\ \E n \in 0..N : ix \in SeqsOfLen(n, Len(Elems(u)))
         /\ call \in CallsOf(u)
 Next == UNCHANGED vars
@@ -50,6 +53,7 @@ ArgVals == CASE call.arg = "none" -> <<>>
              [] call.arg = "other" -> <<Arr(<<IntV(9)>>)>>
              [] call.arg = "empty" -> <<Arr(<<>>)>>
              [] call.arg = "k" -> <<Str(KK)>>
+             [] call.arg = "ksz" -> <<Str(SZ)>>
 R1 == Filter(call.name, Arr(arr), ArgVals)
 Again == call.then \in {"again", "again-compact"}
 R == IF call.then = "none" \/ Again \/ R1.r # "val" THEN R1 ELSE Filter(call.then, R1.v, <<>>)
@@ -84,7 +88,7 @@ FirstLastSize == /\ (Simple /\ call.name = "first" /\ Dec(R)) => Same(R.v, Index
                  /\ (Simple /\ call.name = "last" /\ Dec(R)) => Same(R.v, Index(Arr(arr), IntV(0 - 1)))
                  /\ (Simple /\ call.name = "size" /\ Dec(R)) => R.v.v = Len(arr)
 ConcatLaw == (Simple /\ call.name = "concat" /\ Dec(R)) => Len(R.v.v) = Len(arr) + Len(ArgVals[1].v)
-MapLaw == (Simple /\ call.name = "map" /\ Dec(R)) => \A i \in 1..Len(arr) : Same(R.v.v[i], Prop(arr[i], KK))
+MapLaw == (Simple /\ call.name = "map" /\ Dec(R)) => \A i \in 1..Len(arr) : Same(R.v.v[i], Prop(arr[i], ArgVals[1].v))
 
 \* ------------------------------------------------------------ the probe
 A == <<97>>
@@ -93,10 +97,12 @@ X == <<120>>
 V(n) == [t |-> "var", name |-> n]
 T(s) == [t |-> "text", s |-> s]
 Ob(e) == [t |-> "obj", e |-> e]
-ElemProbe(x) == IF u = "map"
+ElemProbe(x) == IF u \in {"map", "mapsz"}
                 THEN <<T(<<91>>), Ob([t |-> "prop", e |-> V(x), name |-> KK]), T(<<58>>), Ob([t |-> "prop", e |-> V(x), name |-> JJ]), T(<<93>>)>>
                 ELSE <<T(<<91>>), Ob(V(x)), T(<<93>>)>>
-Each(coll) == [t |-> "for", tag |-> "for", var |-> X, coll |-> V(coll), body |-> ElemProbe(X)]
+\* (the elements of a `map` result are the looked-up values themselves)
+ResProbe(x) == IF call.name = "map" THEN <<T(<<91>>), Ob(V(x)), T(<<93>>)>> ELSE ElemProbe(x)
+Each(coll) == [t |-> "for", tag |-> "for", var |-> X, coll |-> V(coll), body |-> IF coll = RR THEN ResProbe(X) ELSE ElemProbe(X)]
 Lit(v) == [t |-> "lit", v |-> v]
 Piped == LET f1 == [t |-> "filter", e |-> V(A), name |-> call.name, args |-> [i \in 1..Len(ArgVals) |-> Lit(ArgVals[i])]]
          IN  IF call.then = "none" \/ Again THEN f1 ELSE [t |-> "filter", e |-> f1, name |-> call.then, args |-> <<>>]
@@ -119,7 +125,7 @@ AgainProg(rep) ==
 Prog(rep) ==
   IF Again THEN AgainProg(rep) ELSE
   (IF Scalar THEN <<Ob(Piped)>>
-   ELSE IF OneElem THEN <<[t |-> "assign", name |-> RR, e |-> Piped]>> \o ElemProbe(RR)
+   ELSE IF OneElem THEN <<[t |-> "assign", name |-> RR, e |-> Piped]>> \o ResProbe(RR)
    ELSE <<[t |-> "assign", name |-> RR, e |-> Piped], Each(RR)>>)
   \o <<T(<<35>>)>> \o After(rep)
 
@@ -139,9 +145,9 @@ CaseFor(rep) == [id |-> ToString(<<u, ix, call.name, call.arg, call.then, rep>>)
 ArgV == <<118, 49>>      \* v1
 PipedV == [t |-> "filter", e |-> V(A), name |-> call.name, args |-> <<V(ArgV)>>]
 ProgV == (IF Scalar THEN <<Ob(PipedV)>>
-          ELSE IF OneElem THEN <<[t |-> "assign", name |-> RR, e |-> PipedV]>> \o ElemProbe(RR)
+          ELSE IF OneElem THEN <<[t |-> "assign", name |-> RR, e |-> PipedV]>> \o ResProbe(RR)
           ELSE <<[t |-> "assign", name |-> RR, e |-> PipedV], Each(RR)>>) \o <<T(<<35>>)>> \o <<Each(A)>>
-ArgHints == CASE call.arg \in {"comma", "k"} -> <<"drop", "ptr", "dropdrop">>
+ArgHints == CASE call.arg \in {"comma", "k", "ksz"} -> <<"drop", "ptr", "dropdrop">>
               [] call.arg = "other" -> <<"ints", "drop", "range", "int64s", "ptr">>
               [] call.arg = "empty" -> <<"nilslice", "drop", "range">>
               [] OTHER -> <<"drop">>
